@@ -131,9 +131,16 @@ Asrt(dd, lvl) ==
   \cup (IF full THEN { <<"maxProperties", I(0)>>, <<"maxProperties", I(2)>>, <<"minProperties", I(0)>>, <<"minProperties", I(1)>>, <<"minProperties", I(3)>>,
                        <<"required", Ar(<<JStr(C)>>)>>, <<"required", Ar(<<JStr(B), JStr(A), JStr(C)>>)>> }
                      \cup (IF r >= 6 THEN { <<"required", EmptyArr>> } ELSE {}) ELSE {})
-  \cup (IF r >= 8 THEN (IF mid THEN { <<"dependentRequired", O1(A, Ar(<<JStr(B)>>))>> } ELSE {})
+  \cup (IF r >= 8 THEN (IF mid THEN { <<"dependentRequired", O1(A, Ar(<<JStr(B)>>))>>,
+                                        <<"dependentRequired", O2(A, Ar(<<JStr(B)>>), C, Ar(<<JStr(D)>>))>>,      \* several triggers: every present one counts
+                                        <<"dependentRequired", O2(B, Ar(<<JStr(A)>>), C, Ar(<<JStr(A), JStr(D)>>))>> } ELSE {})
+                       \cup (IF full THEN { <<"dependentRequired", O3(A, Ar(<<JStr(B)>>), B, Ar(<<JStr(C)>>), C, Ar(<<JStr(D)>>))>> } ELSE {})
                        \cup (IF full THEN { <<"dependentRequired", O1(A, EmptyArr)>>, <<"dependentRequired", O2(A, Ar(<<JStr(B), JStr(C)>>), B, Ar(<<JStr(A)>>))>> } ELSE {})
-        ELSE (IF mid THEN { <<"dependencies", O1(A, Ar(<<JStr(B)>>))>> } ELSE {})
+        ELSE (IF mid THEN { <<"dependencies", O1(A, Ar(<<JStr(B)>>))>>,
+                            <<"dependencies", O2(A, Ar(<<JStr(B)>>), C, Ar(<<JStr(D)>>))>>,
+                            <<"dependencies", O2(B, Ar(<<JStr(A)>>), C, Ar(<<JStr(A), JStr(D)>>))>> } ELSE {})
+             \cup (IF full THEN { <<"dependencies", O3(A, Ar(<<JStr(B)>>), B, Ar(<<JStr(C)>>), C, Ar(<<JStr(D)>>))>>,
+                                  <<"dependencies", O3(A, Ar(<<JStr(B)>>), B, K1("required", Ar(<<JStr(C)>>)), C, K1("required", Ar(<<JStr(D)>>)))>> } ELSE {})
              \cup (IF full THEN { <<"dependencies", O2(A, Ar(<<JStr(B), JStr(C)>>), B, Ar(<<JStr(A)>>))>> }
                                 \cup (IF r >= 6 THEN { <<"dependencies", O1(A, EmptyArr)>> } ELSE {}) ELSE {}))
 
@@ -157,11 +164,14 @@ Appl(dd, lvl) ==
         ELSE { <<"prefixItems", Ar(<<x>>)>> : x \in f2 }
              \cup (IF mid THEN { <<"prefixItems", Ar(<<x, y>>)>> : x \in f2, y \in f2 } ELSE {}))
   \cup (IF r >= 6 THEN { <<"contains", x>> : x \in fs } \cup (IF mid THEN { <<"propertyNames", x>> : x \in fs \cup {K1("maxLength", I(1)), K1("const", JStr(A))} } ELSE {}) ELSE {})
-  \cup (IF r >= 8 THEN (IF mid THEN { <<"minContains", I(0)>>, <<"minContains", I(2)>>, <<"maxContains", I(1)>> } ELSE {})
+  \* (in Draft 6 / 7 minContains / maxContains are not keywords: V d6 6.14 / d7 6.4.6 "valid if at least one element is valid" holds unconditionally)
+  \cup (IF r >= 6 THEN (IF mid THEN { <<"minContains", I(0)>>, <<"minContains", I(2)>>, <<"maxContains", I(1)>> } ELSE {})
                        \cup (IF full THEN { <<"minContains", I(1)>>, <<"maxContains", I(0)>>, <<"maxContains", I(2)>> } ELSE {}) ELSE {})
   \* dependencies with schemas
   \cup (IF r <= 7 THEN { <<"dependencies", O1(A, x)>> : x \in f2 } \cup (IF full THEN { <<"dependencies", O2(A, TInt, B, Ar(<<JStr(A)>>))>> } ELSE {})
-        ELSE { <<"dependentSchemas", O1(A, x)>> : x \in f2 } \cup (IF full THEN { <<"dependentSchemas", O2(A, K1("required", Ar(<<JStr(B)>>)), B, K1("required", Ar(<<JStr(C)>>)))>> } ELSE {}))
+        ELSE { <<"dependentSchemas", O1(A, x)>> : x \in f2 }
+             \cup (IF mid THEN { <<"dependentSchemas", O2(A, K1("required", Ar(<<JStr(B)>>)), C, K1("required", Ar(<<JStr(D)>>)))>> } ELSE {})
+             \cup (IF full THEN { <<"dependentSchemas", O3(A, K1("required", Ar(<<JStr(B)>>)), B, K1("properties", O1(C, TInt)), C, K1("required", Ar(<<JStr(D)>>)))>>, <<"dependentSchemas", O2(A, K1("required", Ar(<<JStr(B)>>)), B, K1("required", Ar(<<JStr(C)>>)))>> } ELSE {}))
   \* in-place
   \cup { <<"not", x>> : x \in fs }
   \cup { <<"allOf", Ar(<<x>>)>> : x \in f2 } \cup { <<"anyOf", Ar(<<x, y>>)>> : x \in f2, y \in f2 } \cup { <<"oneOf", Ar(<<x, y>>)>> : x \in f2, y \in f2 }
@@ -181,6 +191,17 @@ Annot(dd) ==
     <<"unevaluatedProperties", TStr>>, <<"unevaluatedItems", TStr>>, <<"unevaluatedProperties", T>>, <<"unevaluatedItems", T>> }
   \cup (IF r = 8 THEN { <<"items", Ar(<<TInt>>)>>, <<"items", Ar(<<TInt, True(dd)>>)>>, <<"additionalItems", TStr>>, <<"additionalItems", F>> }
         ELSE { <<"prefixItems", Ar(<<TInt>>)>>, <<"prefixItems", Ar(<<TInt, T>>)>>, <<"minContains", I(0)>>, <<"maxContains", I(1)>> })
+(* Annotation scoping across instance locations (plan "scope"): a closed    *)
+(* schema (annotation keyword + unevaluated-keyword) applied to a CHILD     *)
+(* location below another closed schema.  Annotations belong to the instance*)
+(* location they were produced for (C 2019-09 7.7.1 / 2020-12 7.7.1); the   *)
+(* names / positions evaluated inside the child say nothing about the       *)
+(* members of the parent, even when they coincide.                          *)
+ScopeIn(dd) ==
+  { <<"properties", O1(B, True(dd))>>, <<"properties", O1(A, True(dd))>>, <<"properties", O2(A, True(dd), B, True(dd))>>, <<"additionalProperties", TInt>>,
+    <<"items", TInt>>, <<"contains", Min1>> }
+  \cup (IF Rank(dd) = 8 THEN { <<"items", Ar(<<T>>)>>, <<"items", Ar(<<T, T>>)>> } ELSE { <<"prefixItems", Ar(<<T>>)>>, <<"prefixItems", Ar(<<T, T>>)>> })
+ScopeU(dd) == { <<"unevaluatedProperties", F>>, <<"unevaluatedItems", F>>, <<"unevaluatedProperties", TInt>>, <<"unevaluatedItems", TInt>> }
 Uneval(dd) == { <<"unevaluatedProperties", F>>, <<"unevaluatedItems", F>>, <<"unevaluatedProperties", TInt>>, <<"unevaluatedItems", TInt>> }
 
 (* Keywords added beside an applicator after a Nest step.                    *)
@@ -214,6 +235,9 @@ Alpha(dd, name) ==
     [] name = "appl" -> Appl(dd, "full")
     [] name = "annot" -> Annot(dd)
     [] name = "uneval" -> Uneval(dd)
+    [] name = "scopein" -> ScopeIn(dd)
+    [] name = "scopeinu" -> ScopeU(dd)
+    [] name = "scopeout" -> ScopeU(dd) \cup { <<"required", Ar(<<JStr(A)>>)>> }
     [] name = "sibs" -> Sibs(dd)
     [] name = "refs" -> Refs(dd)
     [] name = "refsmid" -> Refs(dd) \cup Asrt(dd, "core") \cup Appl(dd, "core")
@@ -253,6 +277,7 @@ Wraps(dd, x, name) ==
         \cup (IF r <= 8 THEN { K1("items", Ar(<<x>>)), K1("items", Ar(<<TInt, x>>)), K2("items", Ar(<<TInt>>), "additionalItems", x), K1("additionalItems", x) }
               ELSE { K1("prefixItems", Ar(<<x>>)), K1("prefixItems", Ar(<<TInt, x>>)), K2("prefixItems", Ar(<<TInt>>), "items", x) })
         \cup (IF r >= 6 THEN { K1("contains", x), K1("propertyNames", x) } ELSE {})
+        \cup (IF r \in {6, 7} THEN { K2("contains", x, "minContains", I(0)), K2("contains", x, "maxContains", I(1)), K2("contains", x, "minContains", I(2)) } ELSE {})
         \cup (IF r >= 8 THEN { K2("contains", x, "minContains", I(2)), K2("contains", x, "maxContains", I(1)), K2("contains", x, "minContains", I(0)),
                                K1("unevaluatedProperties", x), K1("unevaluatedItems", x),
                                K2("properties", O1(A, TInt), "unevaluatedProperties", x),
@@ -283,6 +308,10 @@ Wraps(dd, x, name) ==
        [] name = "child" -> child
        [] name = "ref" -> ref
        [] name = "struct" -> inplace \cup child
+       [] name = "scopechild" ->
+            { K1("properties", O1(A, x)), K1("properties", O1(B, x)), K1("properties", O2(A, x, B, tr)), K1("additionalProperties", x), K1("items", x), K1("contains", x) }
+            \cup (IF r = 8 THEN { K1("items", Ar(<<x>>)), K1("items", Ar(<<tr, x>>)), K2("items", Ar(<<tr>>), "additionalItems", x) }
+                  ELSE { K1("prefixItems", Ar(<<x>>)), K1("prefixItems", Ar(<<tr, x>>)), K2("prefixItems", Ar(<<tr>>), "items", x) })
 
 -----------------------------------------------------------------------------
 (* Plans (TLC configuration files cannot express tuples, so plans are named). *)
@@ -299,6 +328,7 @@ Plan ==
     [] PlanName = "sib" -> <<Ad("core"), Ne("struct"), Ad("sibs")>>
     [] PlanName = "triples" -> <<Ad("core"), Ad("core"), Ad("core")>>
     [] PlanName = "uneval" -> <<Ad("annot"), Ne("inplace"), Ad("uneval")>>
+    [] PlanName = "scope" -> <<Ad("scopein"), Ad("scopeinu"), Ne("scopechild"), Ad("scopeout")>>
     [] PlanName = "uneval2" -> <<Ad("annot"), Ad("annot"), Ne("inplace"), Ad("uneval")>>
     [] PlanName = "uneval3" -> <<Ad("annot"), Ne("inplace"), Ne("inplace"), Ad("uneval")>>
     [] PlanName = "refs" -> <<Ad("refsmid"), Ad("refs"), Ad("refs")>>
@@ -355,8 +385,22 @@ Steer(dd, root, x, fuel) ==
       vals == (IF has("enum") THEN SeqElems(at("enum")[2]) ELSE {}) \cup (IF has("const") THEN {at("const")} ELSE {})
       reqn == IF has("required") THEN { y[2] : y \in SeqElems(at("required")[2]) } ELSE {}
       reqs == IF has("required") THEN { JObj([k \in reqn |-> I(1)]) } \cup { JObj([k \in reqn \ {z} |-> I(1)]) : z \in reqn } ELSE {}
-      depo(o) == UNION { IF o[2][k][1] = "arr" THEN { JObj([z \in {k} \cup { y[2] : y \in SeqElems(o[2][k][2]) } |-> I(1)]) } ELSE {} : k \in DOMAIN o[2] }
-      deps == (IF has("dependentRequired") THEN depo(at("dependentRequired")) ELSE {}) \cup (IF has("dependencies") THEN depo(at("dependencies")) ELSE {})
+      \* dependency maps: each trigger with its required members; every pair of triggers with the first satisfied and the second
+      \* violated (unless the sets overlap), both satisfied, both violated
+      depo(o) == LET ks == { k \in DOMAIN o[2] : o[2][k][1] = "arr" }
+                     full(k) == {k} \cup { y[2] : y \in SeqElems(o[2][k][2]) }
+                     ob(K) == JObj([z \in K |-> I(1)])
+                     prs == { q \in ks \X ks : q[1] # q[2] }
+                 IN { ob(full(k)) : k \in ks }
+                    \cup { ob(full(q[1]) \cup {q[2]}) : q \in prs }
+                    \cup { ob(full(q[1]) \cup full(q[2])) : q \in prs }
+                    \cup { ob({q[1], q[2]}) : q \in prs }
+      \* schema-valued dependency maps: the triggers alone and in pairs, with and without the steered members of the dependent schemas
+      trig(o) == LET ks == DOMAIN o[2] IN { JObj([z \in K |-> I(1)]) : K \in { {k1, k2} : k1 \in ks, k2 \in ks } }
+                 \cup { JObj([z \in (DOMAIN y[2]) \cup K |-> IF z \in DOMAIN y[2] THEN y[2][z] ELSE I(1)])
+                        : y \in { w \in submap(o) : w[1] = "obj" }, K \in { {k1, k2} : k1 \in ks, k2 \in ks } }
+      deps == (IF has("dependentRequired") THEN depo(at("dependentRequired")) ELSE {}) \cup (IF has("dependencies") THEN depo(at("dependencies")) \cup trig(at("dependencies")) ELSE {})
+              \cup (IF has("dependentSchemas") /\ at("dependentSchemas")[1] = "obj" THEN trig(at("dependentSchemas")) ELSE {})
       props == IF has("properties") THEN UNION { { O1(k, y) : y \in sub(at("properties")[2][k]) } : k \in DOMAIN at("properties")[2] } ELSE {}
       addl == UNION { IF has(k) /\ IsSchemaVal(dd, at(k)) THEN { O1(C, y) : y \in sub(at(k)) } \cup { O2(A, I(1), C, y) : y \in sub(at(k)) } ELSE {} : k \in {"additionalProperties", "unevaluatedProperties"} }
       pnam == IF has("propertyNames") THEN { O1(y[2], I(1)) : y \in { z \in sub(at("propertyNames")) : z[1] = "str" } } ELSE {}
@@ -370,7 +414,17 @@ Steer(dd, root, x, fuel) ==
               \cup (IF has("$ref") /\ at("$ref")[1] = "str" /\ IsOk(ResolveRef(dd, root, at("$ref")[2])) THEN sub(ResolveRef(dd, root, at("$ref")[2])[2]) ELSE {})
   IN nums \cup strs \cup arrs \cup objs \cup vals \cup reqs \cup deps \cup props \cup addl \cup pnam \cup elem \cup posn \cup inpl
 
-Steered == SetToSeq(Steer(d, s, s, 4) \ BaseSet)
+(* Instances for the "scope" plan: a nested value whose evaluated member     *)
+(* names / positions coincide (or not) with unevaluated ones of the parent. *)
+ScopeInst ==
+  { O2(A, O1(B, I(1)), B, I(2)), O1(A, O1(B, I(1))), O2(A, O1(B, I(1)), C, I(2)), O1(A, O2(B, I(1), C, I(1))), O2(A, O1(A, I(1)), B, I(2)),
+    O2(B, O1(A, I(1)), A, I(2)), O2(B, O1(B, I(1)), A, I(2)), O1(B, O1(B, I(1))), O2(A, O2(A, I(1), B, I(1)), B, JStr(A)), O2(A, O1(B, JStr(A)), B, I(2)),
+    O3(A, O1(B, I(1)), B, I(2), C, I(3)), O2(A, Ar(<<I(1)>>), B, I(2)), O1(A, Ar(<<I(1), I(2)>>)),
+    Ar(<<Ar(<<I(1)>>), I(2)>>), Ar(<<Ar(<<I(1)>>)>>), Ar(<<Ar(<<I(1), I(2)>>)>>), Ar(<<Ar(<<I(1), I(2)>>), I(3)>>), Ar(<<Ar(<<I(1), I(2)>>), I(3), I(4)>>),
+    Ar(<<Ar(<<I(1)>>), Ar(<<I(1)>>)>>), Ar(<<I(2), Ar(<<I(1)>>)>>), Ar(<<I(2), Ar(<<I(1), I(2)>>), I(3)>>), Ar(<<Ar(<<I(1)>>), JStr(A)>>), Ar(<<Ar(<<JStr(A), I(1)>>), I(2)>>),
+    Ar(<<O1(B, I(1)), I(2)>>), Ar(<<O1(B, I(1))>>), O1(A, Ar(<<Ar(<<I(1)>>), I(2)>>)) }
+ExtraInst == IF PlanName = "scope" THEN ScopeInst ELSE {}
+Steered == SetToSeq((Steer(d, s, s, 4) \cup ExtraInst) \ BaseSet)
 
 -----------------------------------------------------------------------------
 (* Declared don't-care classes (field "dc" of a case; the verdict of such a  *)
@@ -380,8 +434,13 @@ Steered == SetToSeq(Steer(d, s, s, 4) \ BaseSet)
 (*     ("contains" produces none before 2020-12), the reference validator    *)
 (*     counts the elements matched by "contains" as evaluated in 2019-09     *)
 (*     too, and the test suite has no case: the two references disagree.     *)
+(*  d67-minmaxContains  minContains / maxContains in a Draft 6 / 7 schema:    *)
+(*     not keywords of those drafts; C d6/d7 "unknown keywords SHOULD be       *)
+(*     ignored" is not a MUST and the implementation applies them as an        *)
+(*     extension (the reference validator ignores them).                       *)
 DontCare(dd, root) ==
-  IF dd = "d2019" /\ UsesKw(dd, root, "contains") /\ UsesKw(dd, root, "unevaluatedItems") THEN {"d2019-contains-unevaluatedItems"} ELSE {}
+  (IF dd = "d2019" /\ UsesKw(dd, root, "contains") /\ UsesKw(dd, root, "unevaluatedItems") THEN {"d2019-contains-unevaluatedItems"} ELSE {})
+  \cup (IF Rank(dd) \in {6, 7} /\ (UsesKw(dd, root, "minContains") \/ UsesKw(dd, root, "maxContains")) THEN {"d67-minmaxContains"} ELSE {})
 
 (* Known deviations of the implementation (classification only; the        *)
 (* predicate says which schemas CAN trigger the deviation - notes/C11.md).  *)
@@ -393,6 +452,12 @@ DontCare(dd, root) ==
 (*     outer unevaluatedProperties / unevaluatedItems skips them             *)
 (*     (C 2019-09 7.7.1.2 / 9.2.1.4: a failing subschema contributes no      *)
 (*     annotations)                                                          *)
+(*  contains-leaks-child-items  (2020-12) the array positions evaluated     *)
+(*     INSIDE an element while it is tested against the "contains" subschema  *)
+(*     (a child location) are added to the evaluated positions of the array   *)
+(*     itself when that element fails the subschema (C 2020-12 10.3.1.3: the  *)
+(*     annotation of "contains" is the positions of the MATCHING elements;    *)
+(*     7.7.1: annotations are attached to the location they were produced at) *)
 RECURSIVE HasWideObj(_)
 HasWideObj(v) == CASE v[1] = "obj" -> Cardinality(DOMAIN v[2]) >= 2 \/ \E k \in DOMAIN v[2] : HasWideObj(v[2][k])
                    [] v[1] = "arr" -> \E j \in 1..Len(v[2]) : HasWideObj(v[2][j])
@@ -410,6 +475,11 @@ Trigger(name, dd, root) ==
          /\ UsesKw(dd, root, "unevaluatedProperties") \/ UsesKw(dd, root, "unevaluatedItems")
          /\ \E y \in Subs(dd, root) : y[1] = "obj" /\ S("not") \in DOMAIN y[2] /\
                \E z \in Subs(dd, y[2][S("not")]) : z[1] = "obj" /\ \E k \in AnnotKws : S(k) \in DOMAIN z[2]
+    [] name = "contains-leaks-child-items" ->
+         /\ dd = "d2020" /\ UsesKw(dd, root, "unevaluatedItems")
+         /\ \E y \in Subs(dd, root) : y[1] = "obj" /\ S("contains") \in DOMAIN y[2] /\
+               \E z \in Subs(dd, y[2][S("contains")]) : z[1] = "obj" /\
+                  \E k \in {"items", "prefixItems", "contains", "unevaluatedItems", "$ref"} : S(k) \in DOMAIN z[2]
     [] OTHER -> FALSE
 DevOf(dd, root) == { name \in KnownDeviations : Trigger(name, dd, root) }
 
